@@ -35,5 +35,6 @@ func Props() []kit.Runner {
 			Gen: GenProduce, Check: CheckProduce, Classify: ClassifyProduce, Enumerate: EnumProduce, SampleLimit: 700},
 		kit.Prop[StructCase]{ID: "C15", Name: "structured", Rule: ruleStruct, Quick: 15000, Thorough: 200000,
 			Gen: GenStruct, Check: CheckStruct, Classify: ClassifyStruct},
+		largeDocProp(),
 	}
 }
